@@ -103,6 +103,8 @@ def truthy(x: typing.Any) -> typing.Any:
         return z3.And(z3.Not(x.none), inner) if (is_sym(x.none) or is_sym(inner)) else ((not x.none) and inner)
     if x is None:
         return False
+    if isinstance(x, Obj):
+        return True
     if isinstance(x, bool):
         return x
     if isinstance(x, (int, float)):
@@ -365,6 +367,8 @@ class Interp:
             raise Unsupported(f"unknown name {e.id}")
         if isinstance(e, ast.Attribute):
             base = self.eval(e.value, f)
+            if isinstance(base, Opt):
+                base = base.val  # only reached under an `is not None` / truthiness guard
             if isinstance(base, Obj):
                 if e.attr in base.attrs:
                     return base.attrs[e.attr]
